@@ -570,6 +570,12 @@ pub trait SeqModel: Sync {
     fn nontrivial(&self, _sys: &Self::Sys) -> bool {
         true
     }
+    /// Keep expanding below a state in which the oracle reported a violation?  Default: no (the
+    /// reference no longer describes the system).  Models whose reference is re-synchronised from
+    /// the history alone (never from the implementation) may return true.
+    fn expand_after_violation(&self) -> bool {
+        false
+    }
 }
 
 pub struct SeqStats {
@@ -645,7 +651,7 @@ pub fn seq_bfs<M: SeqModel>(m: &M, max_depth: usize, max_states: u64, rep: &mut 
                     if rep.states % 1009 == 5 || rep.states == 12 {
                         rep.sample(json!(h2.iter().map(|e| m.ev_str(e)).collect::<Vec<_>>().join(" ; ")));
                     }
-                    if !bad {
+                    if !bad || m.expand_after_violation() {
                         next.push(h2);
                     }
                 }
